@@ -93,9 +93,16 @@ pub fn apply(o: &mut Object, op: &J, salt: usize) -> J {
 		}
 		"from_vec" => {
 			let es = build_entries(&op["es"]);
-			*o = match salt % 3 {
+			*o = match salt % 5 {
 				0 => Object::from_vec(es),
 				1 => es.into_iter().collect(),
+				2 => Object::from(es),
+				3 => {
+					// Default, then Extend
+					let mut d = Object::default();
+					d.extend(es);
+					d
+				}
 				_ => es.into_iter().map(|e| (e.key, e.value)).collect(),
 			};
 			json!({"some": false})
